@@ -5,7 +5,8 @@ ROOT = os.path.dirname(os.path.dirname(os.path.abspath(__file__)))
 
 TRUSTED_COMMON = [
     "Lean 4.33 kernel; axioms propext, Classical.choice, Quot.sound",
-    "hand-written Lean model tied to /repo only through this run's correspondence check (differential, sampled/enumerated as stated in 'rule')",
+    "hand-written Lean model tied to /repo through this run's correspondence check (differential, sampled/enumerated as stated in 'rule') and, for the translated slices (Generated/*.lean, regenerated from the source on this run by checklib/gen_*.py), through the obligations proving the model equal to the translation",
+    "the translators checklib/gen_*.py (what they do not recognise they refuse: the *_translated / shape obligations then fail)",
     "the Rust harness (/verif/harness), ./check and checklib (generation, canonicalisation, diffing)",
     "Rust integer cast / wrapping_* semantics as written into the model",
 ]
